@@ -20,7 +20,20 @@ From BB Require Import BN Brute SpaceFacts TrapFacts PercolateFacts AttractorFac
   Strict PetriNet Control Meta FilterFacts PetriNetFacts TrappistFacts DiagramStruct DiagramSem1 DiagramCache
   DiagramDepth DiagramComplete Termination ControlFacts MetaFacts Candidates StrictFacts MinExpandFacts CandidatesFacts SymbolicTest SymbolicTestFacts Signed ReductionFacts ControlFacts2 Main Blocks BlocksFacts ObsFacts OwnerFacts CandidatesTerm
   PartialOwner BlockMath BlockComplete ASeeds ASeedsFacts LogChecks SkipRule SkipRuleFacts Names NamesFacts Perm PermFacts SCC SCCFacts SCCStruct ControlFacts3 SCCTerm FilterSym Main2 StrategyFacts ControlFacts4 SkipRuleFacts2 SCCComplete SCCAttr BlockComplete2 ControlFacts5 Iso SkipSem ControlFacts6.
-From BB Require Import PyLib PyLibSd PySrcSdBase PySrcSd PySrcSdFacts PyLib PyLibSd PyLibCore PyLibSd2 PySrcSdBase PySrcSdMin PySrcSdMinFacts Candidates Blocks ASeeds PySrcSdASeeds PySrcSdASeedsFacts.
+From BB Require Import PyLib PyLibSd PySrcSdBase PySrcSd PySrcSdFacts PyLib PyLibSd PyLibCore PyLibSd2 PySrcSdBase PySrcSdMin PySrcSdMinFacts Candidates Blocks ASeeds PySrcSdASeeds PySrcSdASeedsFacts PySrcComplFacts.
+
+(* C03 for the SOURCE TEXT: when the generated public methods report completion, every minimal trap space is found / everything is expanded *)
+Theorem C03_source_text_expand_minimal_spaces_complete : forall (fuel : nat) (N : net) (cfg : config) (d d' : sd) (skip : bool) (tape : list space), 1 <= max_motifs cfg -> SWF N d -> TrapNodes N d -> NoStubEdges d -> EdgeStrict d -> Faithful N d -> n_space (get d 0) = percolate_b N (top_space (nvars N)) -> perm_of tape (min_traps_b N (n_space (get d 0))) = true -> py_api_expand_minimal_spaces fuel N cfg d tape None None skip = (d', RBool true) -> MinFound N d'.
+Proof. exact py_expand_minimal_spaces_complete. Qed.
+
+Theorem C03_source_text_expand_attractor_seeds_complete : forall (fuel : nat) (N : net) (cfg : config) (d d' : sd) (sz : option nat) (min_tape : list space) (tape : list (list nat)), 1 <= max_motifs cfg -> PlainInv N d -> perm_of min_tape (min_traps_b N (n_space (get d 0))) = true -> py_api_expand_attractor_seeds fuel N cfg d min_tape tape sz = (d', RBool true) -> nfvs_log_ok N (expand_aseeds_log fuel N cfg d sz min_tape tape) -> MinFound N d'.
+Proof. exact py_expand_attractor_seeds_MinFound. Qed.
+
+Theorem C03_source_text_expand_bfs_complete : forall (fuel : nat) (N : net) (cfg : config) (d d' : sd), 1 <= max_motifs cfg -> SWF N d -> NoStubEdges d -> EdgeStrict d -> Rooted d -> py_api_expand_bfs fuel N cfg d None None None = (d', RBool true) -> AllExpanded d'.
+Proof. exact py_expand_bfs_complete. Qed.
+
+Theorem C03_source_text_expand_dfs_complete : forall (fuel : nat) (N : net) (cfg : config) (d d' : sd), 1 <= max_motifs cfg -> SWF N d -> NoStubEdges d -> EdgeStrict d -> Rooted d -> py_api_expand_dfs fuel N cfg d None None None = (d', RBool true) -> AllExpanded d'.
+Proof. exact py_expand_dfs_complete. Qed.
 
 (* translator tie: the function GENERATED from the current text of biobalm/_sd_algorithms/expand_minimal_spaces.py (with its nested make_skip_node; PySrcSdMin.v) equals the model's expand_min on every well-formed diagram, for every start node, limit, skip option and fuel, given the tape contract *)
 Theorem C03_source_expand_minimal_spaces : forall (fuel : nat) (N : net) (cfg : config) (d : sd) (start size_limit : option nat) (skip : bool) (tape : list space), SWF N d -> TrapNodes N d -> EdgeStrict d -> start_of start < size d -> perm_of tape (min_traps_b N (n_space (get d (start_of start)))) = true -> py_expand_minimal_spaces fuel N cfg d tape start size_limit skip = expand_min fuel N cfg d start size_limit skip tape.
@@ -185,6 +198,10 @@ Example C03_example_block : length (minimal_ids (fst (expand_block 100 ex_sw ex_
   size (fst (expand_block 100 ex_sw ex_cfg (init ex_sw) false true None [])) = 9.
 Proof. vm_compute. split; reflexivity. Qed.
 
+Print Assumptions C03_source_text_expand_minimal_spaces_complete.
+Print Assumptions C03_source_text_expand_attractor_seeds_complete.
+Print Assumptions C03_source_text_expand_bfs_complete.
+Print Assumptions C03_source_text_expand_dfs_complete.
 Print Assumptions C03_source_expand_minimal_spaces.
 Print Assumptions C03_source_public_expand_minimal_spaces.
 Print Assumptions C03_source_expand_attractor_seeds.
